@@ -2,6 +2,7 @@
 from __future__ import annotations
 
 import ast
+import re
 from dataclasses import dataclass, field
 from typing import Dict, List, Optional, Tuple
 
@@ -87,7 +88,7 @@ def analyse(P: Project) -> WaitFacts:
         if cancel_check is not None and isinstance(call.func, ast.Name):
             # the nested check by its own name, or by a local that holds it on this path (`check = the_check; await check()`)
             t = st.term(call.func.id) or call.func.id
-            if t == cancel_check.name or an2.defs.get(t, ("", None))[0] == cancel_check.name:
+            if call.func.id == cancel_check.name or t == cancel_check.name or an2.defs.get(t, ("", None))[0] == cancel_check.name:
                 return "cancelcheck"
         if nm.split(".")[-1] in ("create_request", "JSONRPCRequest"):
             parts = {k.arg: subst_text(k.value, st) for k in call.keywords if k.arg}
@@ -190,4 +191,40 @@ def deadline_problems(W: "WaitFacts") -> List[str]:
                     uses.append(f"line {n.lineno}: `{ast.unparse(n)}`" + (" assigned" if isinstance(n.ctx, ast.Store) else ""))
         if uses:
             out.append("the deadline scope is captured and manipulated (" + "; ".join(uses[:3]) + "): the overall deadline can be moved")
+    return out
+
+
+def request_id_problems(P: Project, send: FuncInfo, only=None) -> List[tuple]:
+    """[(function, call, text)] for calls of the request helper inside the package that choose the request id themselves.
+
+    The helper mints a fresh uuid4 when it is given none; an id handed in is the caller's responsibility.  A library function
+    that passes anything but its own caller's id (a constant, something derived from the method or the version, a counter
+    that can repeat) makes two requests on the same streams share an id — a retry after a timeout then takes the late answer
+    to the first attempt for the answer to the second."""
+    out = []
+    idp = "message_id"
+    if idp not in send.params():
+        return out
+    for f in P.funcs.values():
+        if f is send or (only is not None and f not in only):
+            continue
+        for c in walk_local(f.node):
+            if not isinstance(c, ast.Call) or P.resolve_call(f, c) is not send:
+                continue
+            v = None
+            for k in c.keywords:
+                if k.arg == idp:
+                    v = k.value
+            if v is None or (isinstance(v, ast.Constant) and v.value is None):
+                continue
+            if isinstance(v, ast.Name) and v.id in f.params() and not any(isinstance(x, ast.Name) and x.id == v.id and isinstance(x.ctx, ast.Store) for x in walk_local(f.node)):
+                continue  # the caller's own id, handed on
+            t = ast.unparse(v)
+            if isinstance(v, ast.Name):
+                vals = [x.value for x in walk_local(f.node) if isinstance(x, ast.Assign) and len(x.targets) == 1 and isinstance(x.targets[0], ast.Name) and x.targets[0].id == v.id]
+                if len(vals) == 1:
+                    t = ast.unparse(vals[0])
+            if re.fullmatch(r"(str\()?uuid\.uuid4\(\)(\.hex)?\)?", t):
+                continue
+            out.append((f, c, t))
     return out
